@@ -1,7 +1,7 @@
 """C08 — LZ10 compression emits a valid stream (format constants and token layout)."""
 from mir import fmt, walk, strip_refs, norm
 from flow import PathLimit, cond_truth
-from lz import Encoder, bitslice, canon, fmt_byte, NotBits
+from lz import Encoder, bitslice, canon, fmt_byte, NotBits, prune
 
 EXPLANATION = ("Header bytes, token bit layout (bit-slice domain), flag-bit position, group flush conditions, "
                "read-position advance and the caps that make length and displacement fit their fields, all read off "
@@ -111,8 +111,13 @@ def token_checks(rep, R2, R4, enc, forms, where, flag_shift=7):
                 seen_forms["flag"] = "a reference sets no flag bit"
             # which form
             key = tuple(sorted((op, c, truth) for (op, c, truth) in classes if op != "Lt"))
+            caps = enc.caps() or {}
+            mx = {"len": (3, caps.get("L")), "disp": (1, caps.get("W"))}
             try:
-                got = [canon(*bitslice(s[1], enc.classify)) for s in data]
+                got = []
+                for s in data:
+                    pl, c0 = bitslice(s[1], enc.classify)
+                    got.append(canon(prune(pl, mx), c0))
             except NotBits as e:
                 rep.inconc(R2, "token bytes: %s" % e)
                 continue
@@ -123,7 +128,9 @@ def token_checks(rep, R2, R4, enc, forms, where, flag_shift=7):
             rep.violation(R2, enc.body.name, "form-missing:" + name, "no branch emits the %s form" % name, where)
             continue
         for k, got in hits:
-            want = [canon(s[0], s[1]) for s in spec]
+            caps = enc.caps() or {}
+            mx = {"len": (3, caps.get("L")), "disp": (1, caps.get("W"))}
+            want = [canon(prune(s[0], mx), s[1]) for s in spec]
             if got == want:
                 rep.ok(R2, {"form": name, "bytes": [fmt_byte(b) for b in got]})
             else:
